@@ -109,8 +109,9 @@ class CheckC01(core.Check):
         res = (rnd.choice(["D", "D", "R", "DR"]), rnd.choice(["D", "D", "R", "DR"]))
         rng = tuple(rnd.choice(["script:%d" % rnd.getrandbits(32), "os"]) for _ in range(2))
         supply = tuple(rnd.choice(["needed", "needed", "needed", "all"]) for _ in range(2))
-        sessions.add_pair(c, parsed, keys, res=res, rng=rng, prologue=(prologue, prologue), supply=supply)
-        sessions.add_handshake(c, parsed, ["gen:%d:hp%d.%d" % (ln, seed, i) for i, ln in enumerate(pays)])
+        late = (tuple(n for n in parsed.psks if rnd.random() < 0.15), tuple(n for n in parsed.psks if rnd.random() < 0.15))
+        sessions.add_pair(c, parsed, keys, res=res, rng=rng, prologue=(prologue, prologue), supply=supply, late=late)
+        sessions.add_handshake(c, parsed, ["gen:%d:hp%d.%d" % (ln, seed, i) for i, ln in enumerate(pays)], late=late, keys=keys)
         stateless = rnd.random() < 0.4
         sessions.add_convert(c, stateless=stateless)
         nonces = None
